@@ -687,7 +687,7 @@ impl<'a, R: CharRead> Lexer<'a, R> {
     ) -> Result<(F64Offset, OrderedFloat<f64>), ParserError> {
         self.return_char(token.pop().unwrap());
 
-        let n = self.parse_float_lossy(&token)?;
+        let n = self.parse_float(&token)?;
         let offset = float_alloc!(n, self.machine_st.arena);
 
         Ok((offset, OrderedFloat(n)))
@@ -830,7 +830,7 @@ impl<'a, R: CharRead> Lexer<'a, R> {
                             }
                         }
 
-                        let n = self.parse_float_lossy(&token)?;
+                        let n = self.parse_float(&token)?;
                         let offset = float_alloc!(n, self.machine_st.arena);
 
                         Ok(NumberToken::Float(offset, OrderedFloat(n)))
@@ -839,7 +839,7 @@ impl<'a, R: CharRead> Lexer<'a, R> {
                             .map(|(offset, fl)| NumberToken::Float(offset, fl))
                     }
                 } else {
-                    let n = self.parse_float_lossy(&token)?;
+                    let n = self.parse_float(&token)?;
                     let offset = float_alloc!(n, self.machine_st.arena);
                     Ok(NumberToken::Float(offset, OrderedFloat(n)))
                 }
@@ -978,7 +978,7 @@ impl<'a, R: CharRead> Lexer<'a, R> {
             Ok(NumberToken::Partial(token_string)) => match self.parse_integer(&token_string) {
                 Ok(n) => Ok(Token::Literal(n.to_literal())),
                 Err(_) => {
-                    let n = self.parse_float_lossy(&token_string)?;
+                    let n = self.parse_float(&token_string)?;
                     let offset = float_alloc!(n, self.machine_st.arena);
                     Ok(Token::Literal(Literal::F64(offset, OrderedFloat(n))))
                 }
@@ -1093,9 +1093,9 @@ impl<'a, R: CharRead> Lexer<'a, R> {
         }
     }
 
-    fn parse_float_lossy(&self, token: &str) -> Result<f64, ParserError> {
+    fn parse_float(&self, token: &str) -> Result<f64, ParserError> {
         const FORMAT: u128 = lexical::format::STANDARD;
-        let Ok(options) = lexical::ParseFloatOptions::builder().lossy(true).build() else {
+        let Ok(options) = lexical::ParseFloatOptions::builder().build() else {
             return Err(self.located_error(ParserErrorKind::ParseFloat));
         };
 
